@@ -643,7 +643,7 @@ func genVersions(rng *rand.Rand, n int) []verTuple {
 		if rng.Intn(4) == 0 {
 			t.Meta = ident(metaIds, 1)
 		}
-		t.Release = []string{"", "", "1", "2", "10"}[rng.Intn(5)]
+		t.Release = []string{"", "", "1", "2", "10", "2.el9", "0.1", "0.1.rc1"}[rng.Intn(8)]
 		t.Epoch = []string{"", "", "0", "1", "2", "10"}[rng.Intn(6)]
 		if rng.Intn(8) == 0 {
 			t.Schema = "none"
@@ -678,11 +678,14 @@ func genVersions(rng *rand.Rand, n int) []verTuple {
 		"v", "1.2.3-rc_1", "1.2.3+meta+meta", "1.2.3-rc.01", "1.2.3-rc.0", "1.2.3-0", "1.2.3-00", "1.2.3-0a", "1..3", ".1.2", "1.2.", "V1.2.3", "vv1.2.3",
 		"1.2.3-é", "1.2.3+é", "2024.01.02", "1.2.3-rc.1+b.2", "0.0.0", "1", "v2", "1.0", "1.2.3-alpha.beta.1", "1.2.3----", "1.2.3+---", "99999999999.1.1",
 		"1.2.3-rc1-2", "1.2.3+001", "1.2.3-1.2.3", "", "v1.2.3-rc0"} {
-		for _, sch := range []string{"", "none"} {
+		for _, sch := range []string{"", "none", "semver"} {
 			out = append(out, verTuple{Version: s, Schema: sch})
 			out = append(out, verTuple{Version: s, Schema: sch, Pre: "x1", Meta: "m1", Release: "2", Epoch: "1"})
 		}
 	}
+	// an epoch of zero together with a prerelease; releases that are not plain integers
+	out = append(out, verTuple{Version: "v1.4.0-rc1", Epoch: "0"}, verTuple{Version: "1.4.0", Pre: "beta2", Epoch: "0", Release: "2"}, verTuple{Version: "1.4.0-rc1", Epoch: "00"},
+		verTuple{Version: "1.2.3", Release: "2.el9"}, verTuple{Version: "1.2.3-rc1", Release: "0.1"}, verTuple{Version: "1.2.3", Release: "0.1.rc1", Epoch: "1"})
 	// coincidences between components: a prerelease equal to the release, explicit components that happen to end the
 	// verbatim version, verbatim versions containing a tilde
 	out = append(out, verTuple{Version: "1.2.3-1", Release: "1"}, verTuple{Version: "3.0.0-2", Release: "2"}, verTuple{Version: "1.2.3", Pre: "7", Release: "7"},
@@ -806,7 +809,7 @@ func atoi(s string) int { n, _ := strconv.Atoi(s); return n }
 // ---------------------------------------------------------------- C16
 
 func misspell(k string) []string {
-	return []string{k + "x", k + "_", strings.ToUpper(k[:1]) + k[1:]}
+	return []string{k + "x", k + "_", strings.ToUpper(k[:1]) + k[1:], "x-" + k}
 }
 
 func famParse(tr *Trace, id *int) int {
@@ -859,8 +862,8 @@ func famParse(tr *Trace, id *int) int {
 		}
 	}
 	// (b) expansion of every string-valued leaf
-	raws := []struct{ raw, tag string }{{"pre-$VAR-post", "dollar"}, {"pre-${VAR}-post", "brace"}, {"plain value", "plain"}, {"  ${VAR}  ", "padded"}, {"${EMPTYV}", "vanish"}, {"$VAR$OTHER", "two"}, {"  padded plain  ", "paddedplain"}}
-	envs := []map[string]string{{"VAR": "val", "OTHER": "o2"}, {}, {"VAR": "  spaced  "}}
+	raws := []struct{ raw, tag string }{{"pre-$VAR-post", "dollar"}, {"pre-${VAR}-post", "brace"}, {"plain value", "plain"}, {"  ${VAR}  ", "padded"}, {"${EMPTYV}", "vanish"}, {"$VAR$OTHER", "two"}, {"  padded plain  ", "paddedplain"}, {"~/keys/plain.key", "tilde"}, {"~${VAR}/x", "tildevar"}}
+	envs := []map[string]string{{"VAR": "val", "OTHER": "o2", "HOME": "/home/builder", "USER": "builder"}, {}, {"VAR": "  spaced  "}}
 	for _, k := range paths {
 		if k.Kind != "string" && k.Kind != "list" && k.Kind != "map" && k.Kind != "ptr" {
 			continue
@@ -888,7 +891,7 @@ func famParse(tr *Trace, id *int) int {
 						if inContents && opt != "absent" {
 							setPath(doc, append(append([]string{}, k.Segs[:len(k.Segs)-1]...), "expand"), opt == "true", f)
 						}
-						if r.tag == "brace" && len(env) == 2 {
+						if r.tag == "brace" && len(env) >= 2 {
 							// the same with an empty override block of another format in the document (as the reference configuration
 							// of the documentation has): nothing about the expansion may change
 							ov, _ := doc["overrides"].(map[string]any)
@@ -961,7 +964,7 @@ func famParse(tr *Trace, id *int) int {
 		env := map[string]string{}
 		for i, nm := range names {
 			if mask&(1<<i) != 0 {
-				env[nm] = "pw-" + strings.ToLower(nm)
+				env[nm] = []string{"pw-" + strings.ToLower(nm), " pw " + nm + "\t", "pw-" + nm + "\n"}[mask%3] // (a passphrase is used as it is, blanks and all)
 			}
 		}
 		cfg, _, err := parseDoc(minimalDoc(), env)
